@@ -151,20 +151,115 @@ proof fn lemma_powm_add(b: int, e1: nat, e2: nat)
     }
 }
 
-// ---- leaf contracts proved by Kani (assumed here; clause text mirrors contracts/kani/math_f64.rs) ----
+// ---- leaf functions: real bodies (also proved by Kani with counterexamples: contracts/kani/math_f64.rs) ----
 
-#[verifier::external_body]
+pub assume_specification [u64::overflowing_add] (a: u64, b: u64) -> (r: (u64, bool))
+    ensures r.0 as int == (if a + b > u64::MAX { a + b - 0x1_0000_0000_0000_0000 } else { a + b }), r.1 == (a + b > u64::MAX);
+pub assume_specification [u64::overflowing_sub] (a: u64, b: u64) -> (r: (u64, bool))
+    ensures r.0 as int == (if a - b < 0 { a - b + 0x1_0000_0000_0000_0000 } else { a - b }), r.1 == (a - b < 0);
+
+// the arithmetic core: a = xl * (2^32 + 1) mod 2^64 is the Montgomery quotient (M * (2^32 + 1) == 1 mod 2^64)
+proof fn lemma_mont_core(xh: int, xl: int, sh: int, a: int, e: int, s32: int, b: int, r: int, c: int, fin: int)
+    requires
+        0 <= xl < T64, 0 <= xh < P, 
+        0 <= sh < T64, sh == (xl % 0x1_0000_0000) * 0x1_0000_0000,      // xl << 32
+        0 <= a < T64, e == 0 || e == 1, xl + sh == a + e * T64,          // overflowing_add
+        s32 == a / 0x1_0000_0000,                                         // a >> 32
+        0 <= b < T64, (b - (a - s32 - e)) % T64 == 0,                     // two wrapping_subs
+        0 <= r < T64, c == 0 || c == 1, xh - b == r - c * T64,            // overflowing_sub
+        0 <= fin < T64, (fin - (r - c * 0xFFFF_FFFF)) % T64 == 0,         // final wrapping_sub
+    ensures
+        fin < P, mont_wit(xh * T64 + xl, fin, a),
+{
+    // b is exactly a - s32 - e (no wrap): a >= s32, and e == 1 forces a >= 1 hence a - s32 >= 1
+    assert(a - s32 - e >= 0) by (nonlinear_arith)
+        requires 0 <= a < T64, s32 == a / 0x1_0000_0000, e == 0 || e == 1, xl + sh == a + e * T64, 0 <= xl < T64,
+            sh == (xl % 0x1_0000_0000) * 0x1_0000_0000, T64 == 0x1_0000000000000000int
+    { }
+    let hh: int = 0x1_0000_0000;
+    let xlo = xl % hh;
+    let alo = a % hh;
+    let bi = a - s32 - e;
+    // a and xl agree modulo 2^32
+    assert(alo == xlo) by {
+        lemma_fundamental_div_mod(xl, hh);
+        // xl + xlo*H - e*T == a ; T = H*H
+        assert(a == hh * (xl / hh + xlo - e * hh) + xlo) by (nonlinear_arith)
+            requires xl == hh * (xl / hh) + xlo, xl + sh == a + e * T64, sh == xlo * hh, T64 == hh * hh;
+        lemma_fundamental_div_mod_converse(a, hh, xl / hh + xlo - e * hh, xlo);
+    }
+    lemma_fundamental_div_mod(a, hh);
+    // wrapping subtractions do not wrap
+    assert(b == bi) by {
+        assert(bi < T64);
+        lemma_small_mod(0, T64 as nat);
+        // (b - bi) % T == 0 with |b - bi| < T
+        lemma_fundamental_div_mod(b - bi, T64);
+        let k = (b - bi) / T64;
+        assert(k == 0) by (nonlinear_arith) requires b - bi == T64 * k, -T64 < b - bi < T64, T64 > 0;
+    }
+    // x - a * P == (xh - b) * T
+    assert(xh * T64 + xl - a * P == (xh - bi) * T64) by (nonlinear_arith)
+        requires a == hh * s32 + alo, alo == xlo, xl + sh == a + e * T64, sh == xlo * hh, T64 == hh * hh, P == T64 - hh + 1, bi == a - s32 - e;
+    assert(bi <= P - 1) by (nonlinear_arith)
+        requires a == hh * s32 + alo, 0 <= alo < hh, 0 <= a < T64, T64 == hh * hh, P == T64 - hh + 1, bi == a - s32 - e, e >= 0, hh == 0x1_0000_0000;
+    let f = r - c * 0xFFFF_FFFF;
+    assert(0 <= f < T64);
+    assert(fin == f) by {
+        lemma_fundamental_div_mod(fin - f, T64);
+        let k = (fin - f) / T64;
+        assert(k == 0) by (nonlinear_arith) requires fin - f == T64 * k, -T64 < fin - f < T64, T64 > 0;
+    }
+    if c == 1 {
+        assert((xh - bi) * T64 + P * T64 == fin * T64) by (nonlinear_arith) requires fin == xh - bi + P;
+    }
+}
+
+// bit-level facts used by both reductions
+proof fn lemma_red_bits(xl: u64, a: u64)
+    ensures
+        (xl << 32) as int == ((xl as int) % 0x1_0000_0000) * 0x1_0000_0000,
+        (a >> 32) as int == (a as int) / 0x1_0000_0000,
+{
+    assert((xl << 32) == (xl % 0x1_0000_0000) * 0x1_0000_0000) by (bit_vector);
+    assert((a >> 32) == a / 0x1_0000_0000) by (bit_vector);
+}
+
+//@@ source math/src/field/f64/mod.rs
+//@@ extract anchor="const fn mont_red_cst(x: u128) -> u64"
+//@@ rewrite "let xl = x as u64;" => "let xl = #[verifier::truncate] (x as u64);"
+//@@ tailbind fin__
+//@@|    proof {
+//@@|        lemma_consts();
+//@@|        assert(x == (x >> 64) * 0x1_0000_0000_0000_0000 + (#[verifier::truncate] (x as u64)) as u128) by (bit_vector);
+//@@|        assert((x >> 64) < 0xFFFFFFFF00000001u128) by (bit_vector) requires x < 0xFFFFFFFF00000001_0000000000000000u128;
+//@@|        assert(P * T64 == 0xFFFFFFFF00000001_0000000000000000int) by (compute);
+//@@|        lemma_red_bits(xl, a);
+//@@|        lemma_mont_core(xh as int, xl as int, (xl << 32) as int, a as int, if e { 1int } else { 0int }, (a >> 32) as int, b as int,
+//@@|            r as int, if c { 1int } else { 0int }, fin__ as int);
+//@@|    }
 pub const fn mont_red_cst(x: u128) -> (r: u64)
     requires (x as int) < P * T64,
     ensures r < M,
         exists|q: int| mont_wit(x as int, r as int, q),
-{ unimplemented!() }
+{
+    /*@@body*/
+}
 
-#[verifier::external_body]
+//@@ extract anchor="const fn mont_to_int(x: u64) -> u64"
+//@@ tailbind fin__
+//@@|    proof {
+//@@|        lemma_consts();
+//@@|        lemma_red_bits(x, a);
+//@@|        lemma_mont_core(0, x as int, (x << 32) as int, a as int, if e { 1int } else { 0int }, (a >> 32) as int, b as int,
+//@@|            r as int, if c { 1int } else { 0int }, fin__ as int);
+//@@|    }
 pub const fn mont_to_int(x: u64) -> (r: u64)
     ensures r < M,
         exists|q: int| mont_wit(x as int, r as int, q),
-{ unimplemented!() }
+{
+    /*@@body*/
+}
 
 /// mont_red_cst in residue form
 pub fn mont_red(x: u128) -> (r: u64)
@@ -188,8 +283,16 @@ impl AddSpecImpl<BaseElement> for BaseElement {
 }
 impl core::ops::Add for BaseElement {
     type Output = Self;
-    #[verifier::external_body]
-    fn add(self, rhs: Self) -> Self { unimplemented!() }   // Kani: f64_add_contract
+    //@@ source math/src/field/f64/mod.rs
+    //@@ extract within="impl Add for BaseElement" anchor="fn add(self, rhs: Self) -> Self"
+    fn add(self, rhs: Self) -> Self {
+        proof {
+            lemma_consts();
+            let t = self.0 as int + rhs.0 as int;
+            if t < P { lemma_small_mod(t as nat, P as nat); } else { lemma_small_mod((t - P) as nat, P as nat); lemma_mod_multiples_vanish(-1, t, P); }
+        }
+        /*@@body*/
+    }
 }
 impl SubSpecImpl<BaseElement> for BaseElement {
     open spec fn obeys_sub_spec() -> bool { true }
@@ -198,8 +301,15 @@ impl SubSpecImpl<BaseElement> for BaseElement {
 }
 impl core::ops::Sub for BaseElement {
     type Output = Self;
-    #[verifier::external_body]
-    fn sub(self, rhs: Self) -> Self { unimplemented!() }   // Kani: f64_sub_contract
+    //@@ extract within="impl Sub for BaseElement" anchor="fn sub(self, rhs: Self) -> Self"
+    fn sub(self, rhs: Self) -> Self {
+        proof {
+            lemma_consts();
+            let t = self.0 as int - rhs.0 as int;
+            if t >= 0 { lemma_small_mod(t as nat, P as nat); } else { lemma_small_mod((t + P) as nat, P as nat); lemma_mod_multiples_vanish(1, t, P); }
+        }
+        /*@@body*/
+    }
 }
 
 // ---- Mul: real body --------------------------------------------------------------------------------
